@@ -51,7 +51,10 @@ def _structure(draw):
     window = 12 * draw(st.integers(100, 400 if big else 1700))
     stride = window - 576
     k = draw(st.integers(0, 3 if big else 8))
-    ns = max(600, k * stride + draw(st.integers(1, window)))
+    # length of the last window: anywhere, or on the constants the converter compares with (taper 144, 2 x taper 288,
+    # overlap 576, a full window) and their neighbours
+    last = draw(st.one_of(st.integers(1, window), st.sampled_from([1, 2, 143, 144, 145, 287, 288, 289, 575, 576, 577, window - 1, window])))
+    ns = max(600, k * stride + last)
     ns = min(ns, 6000 if big else 20000)
     if not big and spec["n"] <= 16 and draw(st.integers(0, 5)) == 0:
         # longer than the reconstructor's own fixed 2 s (60000-sample) window, ending in a short or a full last window
